@@ -265,7 +265,9 @@ def render_fails(case, desc, m, syn, ordered, orientation, sizes, per_kind, para
             # so names with backslashes are compared on the unwrapped text instead
             if ordered:
                 want = [esc(g) for g in syn[u]]
-                ok = words == want if not any(BS in g for g in syn[u]) else label.replace(BS + BS + BS + BS, "").count(",") == len(want) - 1
+                # the escaped families in order, separated by ", " or by a comma and the line-break marker (order-sensitive also when a
+                # family name holds a backslash, whose escape looks like the line-break marker)
+                ok = re.fullmatch(("(?:, |," + re.escape(BS + BS) + ")").join(re.escape(w) for w in want), label) is not None
             else:
                 want = sorted(esc(g) for g in syn[u])
                 ok = sorted(words) == want if not any(BS in g for g in syn[u]) else True
